@@ -244,6 +244,9 @@ class KModel(Model):
         return Unit()
 
     def zip_map_assign(self, z, target, clo, e):
+        # `Zip::map_assign_into(target, f)` is `Zip::and(target).for_each(|.., t| *t = f(..))` (ndarray 0.16)
+        allp = list(z.d['parts']) + [deref_all(target)]
+        self.events.append(('zip_for_each', [(p.kind, str(p.d.get('r', p.d.get('label', '')))) if isinstance(p, Obj) else ('?', '') for p in allp], len(self.writes)))
         args = [self.lane_arg(p, e) for p in z.d['parts']]
         v = deref_all(self.interp.apply(clo, args, e))
         t = self.lane_arg(target, e)
